@@ -88,10 +88,11 @@ def urep (ws : List (P × P)) (uniq : List P) (n : P) : P :=
   | [] => n
   | u :: _ => u
 
-/-- `unique_node_mapping` as an association list (keys = `all`) -/
+/-- `unique_node_mapping` as an association list (one entry per element of `all_nodes`, in the
+order in which that set is iterated) -/
 def uniqueNodeMapping (ws : List (P × P)) (ord : SetOrd P) (all : List P) : List (P × P) :=
   let uniq := uniqueNodes ws ord all
-  all.map fun n => (n, urep ws uniq n)
+  (ord.all all).map fun n => (n, urep ws uniq n)
 
 /-- `d[k] = v` on an insertion-ordered dictionary -/
 def dictSet {K V : Type} [DecidableEq K] (k : K) (v : V) : List (K × V) → List (K × V)
@@ -117,7 +118,7 @@ next `while` does that) -/
 def numberStep (acc : List (P × String) × Nat) (p : P) : List (P × String) × Nat :=
   let vals := acc.1.map (·.2)
   let idx := nextFree vals (vals.length + 1) acc.2
-  (acc.1 ++ [(p, toString idx)], idx)
+  (dictSet p (toString idx) acc.1, idx)
 
 def numberUnlabeled (named : List (P × String)) (unlabeled : List P) : List (P × String) :=
   (unlabeled.foldl numberStep (named, named.length + 1)).1
@@ -205,6 +206,12 @@ def allNodes (syms : List Sym) : List Pt :=
 
 def nodeSymsOf (syms : List Sym) : List (Pt × String) := (syms.filter (·.isNode)).map fun s => (s.n1, s.nodeId)
 def groundSymsOf (syms : List Sym) : List Pt := ((syms.filter (·.isNode)).filter (·.isGround)).map (·.n1)
+
+/-- `get_element(name)`: the first circuit element of that name (`UnknownElement` ↦ `keyError`) -/
+def getElement (syms : List Sym) (name : String) : Except Err Sym :=
+  match (syms.filter (·.hasName)).filter (fun e => e.name = name) with
+  | [] => throw Err.keyError
+  | e :: _ => pure e
 
 /-- `parser._get_node_index` on a drawing -/
 def labelOf (ord : SetOrd Pt) (syms : List Sym) (p : Pt) : Except Err String :=
